@@ -227,13 +227,23 @@ def _wrap(p, f):
 
 
 def run_shard(tier, k, n, acc):
-    for c in shard_iter(cases(tier), k, n, acc):
-        run_hist(acc, c)
+    from . import c17
+    for c in shard_iter(itertools.chain(cases(tier), c17.overlap_subset(2), c17.overlap_subset(3)), k, n, acc):
+        if c.get("kind") == "gather":
+            # two / three awaits of one AsyncDAG object in flight together (one may start and end while another is in flight, a third
+            # may start after that): the outcome of each depends only on its own arguments
+            c17.run_gather(acc, c)
+        else:
+            run_hist(acc, c)
 
 
 def replay(v):
     from ..acc import Acc
     a = Acc(ID, 0, 1, 600)
     c = v["case"]
+    if c.get("kind") == "gather":
+        from . import c17
+        c17.run_gather(a, c, only_prefix=v["prefix"])
+        return a.violations, None
     run_hist(a, {k: c[k] for k in ("dag", "is_async", "hist", "special") if k in c})
     return a.violations, None
